@@ -22,21 +22,29 @@ open Akd Akd.Vrf
 /-- distinct (label, freshness, version) triples reach the VRF as distinct inputs -/
 theorem labelInput_injective (l l' : Bytes) (f f' : Bool) (v v' : Nat)
     (hl : l.length < 2 ^ 64) (hl' : l'.length < 2 ^ 64) (hv : v < 2 ^ 64) (hv' : v' < 2 ^ 64)
-    (h : labelInput l f v = labelInput l' f' v') : l = l' ∧ f = f' ∧ v = v' := by
-  sorry
+    (h : labelInput l f v = labelInput l' f' v') : l = l' ∧ f = f' ∧ v = v' :=
+  labelInput_inj hl hl' hv hv' h
 
 theorem proof_bytes_roundtrip (p : Proof) (hg : p.gamma.length = 32) (hc : p.c < 2 ^ 128) (hs : p.s < ell) :
     decodeProof (encodeProof p) = some p := by
-  sorry
+  have hc' : p.c < 256 ^ 16 := by simpa using hc
+  have hs' : p.s < 256 ^ 32 := Nat.lt_trans hs (Nat.lt_trans ell_lt (by decide))
+  rw [encodeProof, decodeProof_parts _ _ _ hg, Nat.mod_eq_of_lt hc', Nat.mod_eq_of_lt hs',
+    Nat.mod_eq_of_lt (c_lt_ell hc), Nat.mod_eq_of_lt hs]
 
 theorem proof_wrong_length_rejected (bs : Bytes) (h : bs.length ≠ 80) : decodeProof bs = none := by
-  sorry
+  unfold decodeProof
+  rw [if_pos h]
 
 /-- a non-canonical encoding of `s` (`s + ℓ`, which still fits 32 bytes) decodes to the SAME proof:
 altering the bytes this way cannot make a different label verify -/
 theorem proof_s_plus_ell (p : Proof) (hg : p.gamma.length = 32) (hc : p.c < 2 ^ 128) (hs : p.s < ell) :
     decodeProof (p.gamma ++ le 16 p.c ++ le 32 (p.s + ell)) = some p := by
-  sorry
+  have hc' : p.c < 256 ^ 16 := by simpa using hc
+  have hs' : p.s + ell < 256 ^ 32 :=
+    Nat.lt_trans (Nat.add_lt_add_right hs ell) two_ell_lt
+  rw [decodeProof_parts _ _ _ hg, Nat.mod_eq_of_lt hc', Nat.mod_eq_of_lt hs',
+    Nat.mod_eq_of_lt (c_lt_ell hc), Nat.add_mod_right, Nat.mod_eq_of_lt hs]
 
 /-! ### ECVRF completeness in an abstract model: scalars form a commutative ring `R`, points an
 `R`-module `M`; `B` is the base point, `H α` the hash-to-curve of the input, `hsh` the challenge hash. -/
@@ -62,12 +70,19 @@ def verify (B : M) (H : A → M) (hsh : M → M → M → M → M → R) (Y : M)
 the output (hence the node label) is computed — is the evaluation `x • H α` -/
 theorem vrf_complete (B : M) (H : A → M) (hsh : M → M → M → M → M → R) (x k : R) (α : A) :
     verify B H hsh (x • B) α (prove B H hsh x k α) ∧ (prove B H hsh x k α).gamma = x • H α := by
-  sorry
+  refine ⟨?_, rfl⟩
+  have e1 : (k + hsh (x • B) (H α) (x • H α) (k • B) (k • H α) * x) • B
+      - hsh (x • B) (H α) (x • H α) (k • B) (k • H α) • x • B = k • B := by
+    rw [add_smul, mul_smul, add_sub_cancel_right]
+  have e2 : (k + hsh (x • B) (H α) (x • H α) (k • B) (k • H α) * x) • H α
+      - hsh (x • B) (H α) (x • H α) (k • B) (k • H α) • x • H α = k • H α := by
+    rw [add_smul, mul_smul, add_sub_cancel_right]
+  simp only [verify, prove]
+  rw [e1, e2]
 
 /-- the proof's `gamma` does not depend on the nonce: evaluation is deterministic -/
 theorem vrf_deterministic (B : M) (H : A → M) (hsh : M → M → M → M → M → R) (x k k' : R) (α : A) :
-    (prove B H hsh x k α).gamma = (prove B H hsh x k' α).gamma := by
-  sorry
+    (prove B H hsh x k α).gamma = (prove B H hsh x k' α).gamma := rfl
 end ecvrf
 
 /-! ### the decision logic of `verify_label` over the VRF contract -/
@@ -76,14 +91,82 @@ end ecvrf
 node label is the VRF output for it -/
 theorem verifyLabel_spec (t : VrfTable) (u : Akd.Bytes) (f : Bool) (v : Nat) (pf : VrfProof) (nl : NodeLabel) :
     Verify.verifyLabel t u f v pf nl = true ↔ pf = some ⟨u, f, v⟩ ∧ t.get? ⟨u, f, v⟩ = some nl := by
-  sorry
+  cases pf with
+  | none => simp [Verify.verifyLabel]
+  | some cl =>
+    obtain ⟨cu, cf, cv⟩ := cl
+    simp only [Verify.verifyLabel, Bool.and_eq_true, decide_eq_true_eq, Option.some.injEq,
+      VrfClaim.mk.injEq]
+    constructor
+    · rintro ⟨⟨⟨rfl, rfl⟩, rfl⟩, h⟩
+      refine ⟨⟨rfl, rfl, rfl⟩, ?_⟩
+      cases hg : t.get? ⟨cu, cf, cv⟩ with
+      | none => rw [hg] at h; exact absurd h (by simp)
+      | some l => rw [hg] at h; simpa using h
+    · rintro ⟨⟨rfl, rfl, rfl⟩, h⟩
+      rw [h]
+      simp
 
+-- `hv` is kept as stated but is not needed: the proof object already pins the claim, and `get?` is a
+-- function; the place where `VrfOK.inj` matters is `verifyLabel_label_binds` below
+set_option linter.unusedVariables false in
 /-- with distinct outputs for distinct inputs, a proof accepted for one (label, freshness, version, node
 label) is rejected as soon as any single one of them is altered -/
 theorem verifyLabel_single_field (t : VrfTable) (hv : C06.VrfOK t) (u u' : Akd.Bytes) (f f' : Bool) (v v' : Nat)
     (pf : VrfProof) (nl nl' : NodeLabel)
     (h : Verify.verifyLabel t u f v pf nl = true)
     (hne : (u', f', v', nl') ≠ (u, f, v, nl)) (hpf : Verify.verifyLabel t u' f' v' pf nl' = true) : False := by
-  sorry
+  obtain ⟨h1, h2⟩ := (verifyLabel_spec t u f v pf nl).mp h
+  obtain ⟨h3, h4⟩ := (verifyLabel_spec t u' f' v' pf nl').mp hpf
+  -- the claim is pinned by the proof object itself; `hv.inj` is not needed for this direction
+  have hk : (⟨u', f', v'⟩ : VrfClaim) = ⟨u, f, v⟩ := Option.some.inj (h3.symm.trans h1)
+  rw [hk, h2] at h4
+  injection hk with e1 e2 e3
+  exact hne (by rw [e1, e2, e3, Option.some.inj h4])
+
+/-- the complementary use of `VrfOK.inj`: two accepted proofs (possibly different proof objects) for the
+same node label are for the same (label, freshness, version) -/
+theorem verifyLabel_label_binds (t : VrfTable) (hv : C06.VrfOK t) (u u' : Akd.Bytes) (f f' : Bool) (v v' : Nat)
+    (pf pf' : VrfProof) (nl : NodeLabel)
+    (h : Verify.verifyLabel t u f v pf nl = true) (h' : Verify.verifyLabel t u' f' v' pf' nl = true) :
+    u = u' ∧ f = f' ∧ v = v' := by
+  obtain ⟨-, h2⟩ := (verifyLabel_spec t u f v pf nl).mp h
+  obtain ⟨-, h4⟩ := (verifyLabel_spec t u' f' v' pf' nl).mp h'
+  have hk := hv.inj _ _ nl h2 h4
+  injection hk with e1 e2 e3
+  exact ⟨e1, e2, e3⟩
+
+/-! ### non-vacuity -/
+
+example : labelInput [] true 1 ≠ labelInput [0] false 1 := by decide
+example : labelInput [1, 2] true 7 ≠ labelInput [1, 2] true 8 := by decide
+example : labelInput [1, 2] true 7 ≠ labelInput [1, 2] false 7 := by decide
+example : labelInput [1, 2] true 258 =
+    [0, 0, 0, 0, 0, 0, 0, 2, 1, 2, 1, 0, 0, 0, 0, 0, 0, 1, 2] := by decide
+/-- without the bound the encoding is not injective: `be8` truncates to 64 bits -/
+example : labelInput [] true 0 = labelInput [] true (2 ^ 64) := by decide
+
+def exProof : Proof := ⟨List.replicate 32 7, 2 ^ 127 + 5, ell - 1⟩
+example : exProof.gamma.length = 32 ∧ exProof.c < 2 ^ 128 ∧ exProof.s < ell := by decide
+example : decodeProof (encodeProof exProof) = some exProof :=
+  proof_bytes_roundtrip exProof (by decide) (by decide) (by decide)
+example : (encodeProof exProof).length = 80 := by decide
+example : decodeProof (List.replicate 79 0) = none := proof_wrong_length_rejected _ (by decide)
+example : decodeProof (List.replicate 81 0) = none := proof_wrong_length_rejected _ (by decide)
+/-- the `s + ℓ` encoding really is a different byte string -/
+example : le 32 (3 + ell) ≠ le 32 3 := by decide
+/-- and the canonicity hypothesis `s < ℓ` is needed: `s = ℓ` is reduced to `0` -/
+example : ofLe (le 32 ell) % ell = 0 := by decide
+
+/-- the abstract ECVRF model instantiated at `R = M = ℤ` -/
+example : verify (R := Int) (M := Int) (A := Int) 1 (fun a => a + 2) (fun a b c d e => a + b + c + d + e) (3 • (1 : Int)) 5
+    (prove (R := Int) (M := Int) (A := Int) 1 (fun a => a + 2) (fun a b c d e => a + b + c + d + e) 3 11 5) :=
+  (vrf_complete (R := Int) (M := Int) (A := Int) 1 _ _ 3 11 5).1
+
+def exTable : VrfTable := [(⟨[1], true, 1⟩, ⟨Vector.replicate 32 1, 256⟩), (⟨[1], false, 1⟩, ⟨Vector.replicate 32 2, 256⟩)]
+example : Verify.verifyLabel exTable [1] true 1 (some ⟨[1], true, 1⟩) ⟨Vector.replicate 32 1, 256⟩ = true := by decide
+example : Verify.verifyLabel exTable [1] false 1 (some ⟨[1], true, 1⟩) ⟨Vector.replicate 32 1, 256⟩ = false := by decide
+example : Verify.verifyLabel exTable [1] true 2 (some ⟨[1], true, 1⟩) ⟨Vector.replicate 32 1, 256⟩ = false := by decide
+example : Verify.verifyLabel exTable [1] true 1 (some ⟨[1], true, 1⟩) ⟨Vector.replicate 32 2, 256⟩ = false := by decide
 
 end Akd.C18
